@@ -471,11 +471,81 @@ func c18Parallel(r *rt.Rec, rng *rand.Rand, rounds int) {
 	}
 }
 
+
+// c18LongSession: one parser serves thousands of statements, most of them
+// rejected (truncations, replacements), some of them large; at intervals the
+// targets are parsed on it and must be accepted and understood as on a fresh
+// parser. State that only builds up over a long life of a parser shows here.
+func c18LongSession(r *rt.Rec, rng *rand.Rand, statements int) {
+	targets := c18Targets(rng)
+	prefixes := c18Prefixes(rng, targets)
+	// large statements, whole and cut short near their end
+	var sb strings.Builder
+	sb.WriteString("insert data into ?g {")
+	for i := 0; i < 300; i++ {
+		if i > 0 {
+			sb.WriteString(" .")
+		}
+		fmt.Fprintf(&sb, ` /u<s%d> "p"@[] /u<o%d>`, i, i)
+	}
+	big := sb.String() + " } ;"
+	prefixes = append(prefixes, big, big[:len(big)-4], big[:len(big)/2], big[:len(big)-40]+" ?x ;")
+	type base struct {
+		ok bool
+		fp string
+	}
+	fresh := make([]base, len(targets))
+	for i, t := range targets {
+		st := &semantic.Statement{}
+		err := newSemantic().Parse(grammar.NewLLk(t, 1), st)
+		fresh[i] = base{err == nil, fingerprint(st)}
+	}
+	p := newSemantic()
+	rejected := 0
+	for n := 0; n < statements; n++ {
+		pre := prefixes[rng.Intn(len(prefixes))]
+		if n%3 == 0 {
+			pre = prefixes[len(prefixes)-1-rng.Intn(4)] // the large ones, often
+		}
+		var err error
+		if guard(r, "Parser.Parse(long session)", trim(pre, 200), func() { err = p.Parse(grammar.NewLLk(pre, 1), &semantic.Statement{}) }) {
+			return
+		}
+		if err != nil {
+			rejected++
+		}
+		if n%50 != 49 {
+			continue
+		}
+		ti := rng.Intn(len(targets))
+		r.Note(fmt.Sprintf("long session: target after %d statements (%d rejected): %s", n+1, rejected, targets[ti]))
+		st := &semantic.Statement{}
+		var terr error
+		if guard(r, "Parser.Parse(target)", targets[ti], func() { terr = p.Parse(grammar.NewLLk(targets[ti], 1), st) }) {
+			return
+		}
+		r.Eval(1)
+		w := map[string]interface{}{"statements_parsed_before": n + 1, "rejected_before": rejected, "target": targets[ti]}
+		kind := strings.Fields(targets[ti])[0]
+		if (terr == nil) != fresh[ti].ok {
+			w["error"] = fmt.Sprint(terr)
+			r.Violation("stateful/long-session/accept-changed/"+kind, fmt.Sprintf("after %d statements on one parser (%d rejected) the target is accepted=%v, a fresh parser says %v", n+1, rejected, terr == nil, fresh[ti].ok), w)
+			return
+		} else if terr == nil && fingerprint(st) != fresh[ti].fp {
+			w["fresh"], w["reused"] = fresh[ti].fp, fingerprint(st)
+			r.Violation("stateful/long-session/meaning-changed/"+kind, "after a long session on one parser the meaning extracted from the target differs from a fresh parser's", w)
+			return
+		}
+	}
+	r.Count("long_session_statements", statements)
+	r.Nontrivial(fmt.Sprintf("long-session|%d|%d", statements, rejected))
+}
+
 func init() {
 	register(&rt.Check{
 		ID:    "C18",
 		Level: "exploration",
-		Rule: "(a) sentences derived at random from the exported grammar table, (b) their single-token mutations (delete, insert, replace, swap, extra tokens after the final ';'), (c) every token sequence up to length L over the 55 token kinds (L=3 quick, 4 thorough; complete), rendered to text and judged on the kinds the real lexer returns (sequences the lexer cannot produce are skipped as unrealisable); (a2) accepted sentences followed by a tail the lexer cannot read; (e) eight goroutines, each with its own parser (reused or fresh per statement), parsing the targets at the same time, also under -race; (d) target statements of all eight kinds (hand-written ones incl. lists that repeat a name, and 40 generated ones per shard) parsed on a reused Parser after 1-4 earlier statements (accepted, truncated at every token position, token-replaced); " +
+		Rule: "(a) sentences derived at random from the exported grammar table, (b) their single-token mutations (delete, insert, replace, swap, extra tokens after the final ';'), (c) every token sequence up to length L over the 55 token kinds (L=3 quick, 4 thorough; complete), rendered to text and judged on the kinds the real lexer returns (sequences the lexer cannot produce are skipped as unrealisable); (a2) accepted sentences followed by a tail the lexer cannot read; (f) long sessions: thousands of statements (most rejected, some of 300 triples, whole and cut short) on one parser with the targets checked every 50 statements; (e) eight goroutines, each with its own parser (reused or fresh per statement), parsing the targets at the same time, also under -race; (d) target statements of all eight kinds (hand-written ones incl. lists that repeat a name, and 40 generated ones per shard) parsed on a reused Parser after 1-4 earlier statements (accepted, truncated at every token position, token-replaced); " +
 			"oracle: an independent table interpreter with explicit end-of-input for accept/reject, SemanticBQL accepts => BQL accepts and derivable, and an accessor-level meaning fingerprint equal to that on a fresh parser; non-trivial = accepted or rejected after >=3 tokens; (d) an earlier statement was rejected inside a clause; distinct by kind sequence / history",
 		Assume: []string{"the reference recogniser uses the same greedy predictive choice the property describes", "fingerprint covers every exported accessor of semantic.Statement"},
 		Floor:  2000,
@@ -489,6 +559,7 @@ func init() {
 				{Name: "sentences", N: 16, Run: func(i int, r *rt.Rec) { c18Sentences(r, gen.Rng(seed, "c18s", i), sent/16) }},
 				{Name: "enumerate", N: len(kinds), Exhaustive: true, Run: func(i int, r *rt.Rec) { c18Enumerate(r, kinds[i], maxLen) }},
 				{Name: "stateless", N: 16, Run: func(i int, r *rt.Rec) { c18Stateless(r, gen.Rng(seed, "c18d", i), rounds/16) }},
+				{Name: "long-session", N: 8, Run: func(i int, r *rt.Rec) { c18LongSession(r, gen.Rng(seed, "c18l", i), rounds/8) }},
 				{Name: "parallel-parsers", N: 8, Procs: 16, Run: func(i int, r *rt.Rec) { c18Parallel(r, gen.Rng(seed, "c18p", i), rounds/2000) }},
 				{Name: "parallel-parsers-race", N: 4, Race: true, Procs: 16, Run: func(i int, r *rt.Rec) { c18Parallel(r, gen.Rng(seed, "c18pr", i), rounds/10000) }},
 			}
